@@ -21,20 +21,13 @@ set_option linter.unusedSectionVars false
 namespace Amgcl.Energy
 open Matrix
 
-variable {𝕜 : Type*} [Field 𝕜] [LinearOrder 𝕜] [IsStrictOrderedRing 𝕜]
+variable {𝕜 : Type*} [Field 𝕜]
 variable {ι κ : Type*} [Fintype ι] [Fintype κ]
+
+/-! ### algebra (any field) -/
 
 /-- the energy (bilinear) form `⟪u, v⟫_A = uᵀ A v` -/
 def en (A : Matrix ι ι 𝕜) (u v : ι → 𝕜) : 𝕜 := u ⬝ᵥ A *ᵥ v
-
-/-- symmetric positive definite, as a statement about the quadratic form (usable over `ℚ`) -/
-def IsSPD (A : Matrix ι ι 𝕜) : Prop := Aᵀ = A ∧ ∀ v : ι → 𝕜, v ≠ 0 → 0 < en A v v
-
-/-- `E` is nonexpansive in the `A`-norm -/
-def NonExp (A E : Matrix ι ι 𝕜) : Prop := ∀ e : ι → 𝕜, en A (E *ᵥ e) (E *ᵥ e) ≤ en A e e
-
-/-- `E` is strictly contracting in the `A`-norm -/
-def Contr (A E : Matrix ι ι 𝕜) : Prop := ∀ e : ι → 𝕜, e ≠ 0 → en A (E *ᵥ e) (E *ᵥ e) < en A e e
 
 section en
 variable (A : Matrix ι ι 𝕜) (u v w : ι → 𝕜) (c : 𝕜)
@@ -78,6 +71,103 @@ theorem en_add_add (hA : Aᵀ = A) : en A (u + v) (u + v) = en A u u + 2 * en A 
   rw [en_add_left, en_add_right, en_add_right, en_comm A v u hA]; ring
 
 end en
+
+/-! ### composition of stationary iterations at the level of the preconditioner matrices -/
+section seq
+variable [DecidableEq ι]
+
+/-- the preconditioner of "first `x ↦ x + B₁(f − A x)`, then `x ↦ x + B₂(f − A x)`" -/
+def seqB (A B₁ B₂ : Matrix ι ι 𝕜) : Matrix ι ι 𝕜 := B₁ + B₂ - B₂ * A * B₁
+
+/-- `k` steps of `x ↦ x + B(f − A x)` starting from `x = 0` give `x = powB A B k *ᵥ f` -/
+def powB (A B : Matrix ι ι 𝕜) : ℕ → Matrix ι ι 𝕜
+  | 0 => 0
+  | k + 1 => seqB A (powB A B k) B
+
+variable (A B B₁ B₂ B₃ : Matrix ι ι 𝕜)
+
+/-- one step of the stationary iteration `x ↦ x + B (f − A x)` -/
+def step (f x : ι → 𝕜) : ι → 𝕜 := x + B *ᵥ (f - A *ᵥ x)
+
+/-- **error propagation**: if `A x* = f` the error after one step is `(1 − B A)` times the error before -/
+theorem step_error (f x xs : ι → 𝕜) (hs : A *ᵥ xs = f) :
+    xs - step A B f x = (1 - B * A) *ᵥ (xs - x) := by
+  rw [step, ← hs, ← mulVec_sub, sub_mulVec, one_mulVec, ← mulVec_mulVec]; abel
+
+/-- a step is the affine map `x ↦ (1 − B A) x + B f` -/
+theorem step_affine (f x : ι → 𝕜) : step A B f x = (1 - B * A) *ᵥ x + B *ᵥ f := by
+  rw [step, mulVec_sub, sub_mulVec, one_mulVec, ← mulVec_mulVec]; abel
+
+/-- two steps in a row are one step with `seqB` -/
+theorem step_step (f x : ι → 𝕜) : step A B₂ f (step A B₁ f x) = step A (seqB A B₁ B₂) f x := by
+  simp only [step, seqB, mulVec_add, mulVec_sub, add_mulVec, sub_mulVec, ← mulVec_mulVec]; abel
+
+/-- composition multiplies the error operators -/
+theorem one_sub_seqB_mul : 1 - seqB A B₁ B₂ * A = (1 - B₂ * A) * (1 - B₁ * A) := by
+  unfold seqB; noncomm_ring
+
+theorem seqB_assoc : seqB A (seqB A B₁ B₂) B₃ = seqB A B₁ (seqB A B₂ B₃) := by
+  unfold seqB; noncomm_ring
+
+@[simp] theorem seqB_zero_left : seqB A 0 B = B := by simp [seqB]
+@[simp] theorem seqB_zero_right : seqB A B 0 = B := by simp [seqB]
+
+theorem seqB_transpose (hA : Aᵀ = A) : (seqB A B₁ B₂)ᵀ = seqB A B₂ᵀ B₁ᵀ := by
+  simp only [seqB, transpose_sub, transpose_add, transpose_mul, hA, Matrix.mul_assoc]; abel
+
+@[simp] theorem powB_zero : powB A B 0 = 0 := rfl
+theorem powB_succ (k : ℕ) : powB A B (k + 1) = seqB A (powB A B k) B := rfl
+@[simp] theorem powB_one : powB A B 1 = B := by simp [powB]
+
+theorem powB_succ' (k : ℕ) : powB A B (k + 1) = seqB A B (powB A B k) := by
+  induction k with
+  | zero => simp [powB]
+  | succ k ih => rw [powB_succ, ih, seqB_assoc, ← powB_succ, ih]
+
+theorem one_sub_powB_mul (k : ℕ) : 1 - powB A B k * A = (1 - B * A) ^ k := by
+  induction k with
+  | zero => simp
+  | succ k ih => rw [powB_succ, one_sub_seqB_mul, ih, pow_succ']
+
+theorem powB_transpose (hA : Aᵀ = A) (k : ℕ) : (powB A B k)ᵀ = powB A Bᵀ k := by
+  induction k with
+  | zero => simp
+  | succ k ih => rw [powB_succ, seqB_transpose _ _ _ hA, ih, ← powB_succ']
+
+/-- `k` steps from `x₀ = 0` -/
+theorem iterate_step_zero (f : ι → 𝕜) (k : ℕ) : (step A B f)^[k] 0 = powB A B k *ᵥ f := by
+  induction k with
+  | zero => simp
+  | succ k ih =>
+    rw [Function.iterate_succ_apply', ih, powB_succ]
+    have : powB A B k *ᵥ f = step A (powB A B k) f 0 := by simp [step]
+    rw [this, step_step]; simp [step]
+
+/-- scaling: `A ↦ c A`, `Bᵢ ↦ c⁻¹ Bᵢ` scales the composed preconditioner by `c⁻¹` -/
+theorem seqB_smul {c : 𝕜} (hc : c ≠ 0) : seqB (c • A) (c⁻¹ • B₁) (c⁻¹ • B₂) = c⁻¹ • seqB A B₁ B₂ := by
+  simp only [seqB, Matrix.smul_mul, Matrix.mul_smul, smul_smul, smul_sub, smul_add]
+  congr 2
+  field_simp
+
+theorem powB_smul {c : 𝕜} (hc : c ≠ 0) (k : ℕ) : powB (c • A) (c⁻¹ • B) k = c⁻¹ • powB A B k := by
+  induction k with
+  | zero => simp
+  | succ k ih => rw [powB_succ, ih, seqB_smul _ _ _ hc, ← powB_succ]
+
+end seq
+
+/-! ### order: positive definiteness, nonexpansive and contracting operators -/
+
+variable [LinearOrder 𝕜] [IsStrictOrderedRing 𝕜]
+
+/-- symmetric positive definite, as a statement about the quadratic form (usable over `ℚ`) -/
+def IsSPD (A : Matrix ι ι 𝕜) : Prop := Aᵀ = A ∧ ∀ v : ι → 𝕜, v ≠ 0 → 0 < en A v v
+
+/-- `E` is nonexpansive in the `A`-norm -/
+def NonExp (A E : Matrix ι ι 𝕜) : Prop := ∀ e : ι → 𝕜, en A (E *ᵥ e) (E *ᵥ e) ≤ en A e e
+
+/-- `E` is strictly contracting in the `A`-norm -/
+def Contr (A E : Matrix ι ι 𝕜) : Prop := ∀ e : ι → 𝕜, e ≠ 0 → en A (E *ᵥ e) (E *ᵥ e) < en A e e
 
 section spd
 variable {A : Matrix ι ι 𝕜}
@@ -166,89 +256,5 @@ theorem contr_zero (hA : IsSPD A) : Contr A (0 : Matrix ι ι 𝕜) := fun e he 
   rw [zero_mulVec, en_zero_left]; exact hA.pos he
 
 end contr
-
-/-! ### composition of stationary iterations at the level of the preconditioner matrices -/
-section seq
-variable [DecidableEq ι]
-
-/-- the preconditioner of "first `x ↦ x + B₁(f − A x)`, then `x ↦ x + B₂(f − A x)`" -/
-def seqB (A B₁ B₂ : Matrix ι ι 𝕜) : Matrix ι ι 𝕜 := B₁ + B₂ - B₂ * A * B₁
-
-/-- `k` steps of `x ↦ x + B(f − A x)` starting from `x = 0` give `x = powB A B k *ᵥ f` -/
-def powB (A B : Matrix ι ι 𝕜) : ℕ → Matrix ι ι 𝕜
-  | 0 => 0
-  | k + 1 => seqB A (powB A B k) B
-
-variable (A B B₁ B₂ B₃ : Matrix ι ι 𝕜)
-
-/-- one step of the stationary iteration `x ↦ x + B (f − A x)` -/
-def step (f x : ι → 𝕜) : ι → 𝕜 := x + B *ᵥ (f - A *ᵥ x)
-
-/-- **error propagation**: if `A x* = f` the error after one step is `(1 − B A)` times the error before -/
-theorem step_error (f x xs : ι → 𝕜) (hs : A *ᵥ xs = f) :
-    xs - step A B f x = (1 - B * A) *ᵥ (xs - x) := by
-  rw [step, ← hs, ← mulVec_sub, sub_mulVec, one_mulVec, ← mulVec_mulVec]; abel
-
-/-- a step is the affine map `x ↦ (1 − B A) x + B f` -/
-theorem step_affine (f x : ι → 𝕜) : step A B f x = (1 - B * A) *ᵥ x + B *ᵥ f := by
-  rw [step, mulVec_sub, sub_mulVec, one_mulVec, ← mulVec_mulVec]; abel
-
-/-- two steps in a row are one step with `seqB` -/
-theorem step_step (f x : ι → 𝕜) : step A B₂ f (step A B₁ f x) = step A (seqB A B₁ B₂) f x := by
-  simp only [step, seqB, mulVec_add, mulVec_sub, add_mulVec, sub_mulVec, ← mulVec_mulVec]; abel
-
-/-- composition multiplies the error operators -/
-theorem one_sub_seqB_mul : 1 - seqB A B₁ B₂ * A = (1 - B₂ * A) * (1 - B₁ * A) := by
-  unfold seqB; noncomm_ring
-
-theorem seqB_assoc : seqB A (seqB A B₁ B₂) B₃ = seqB A B₁ (seqB A B₂ B₃) := by
-  unfold seqB; noncomm_ring
-
-@[simp] theorem seqB_zero_left : seqB A 0 B = B := by simp [seqB]
-@[simp] theorem seqB_zero_right : seqB A B 0 = B := by simp [seqB]
-
-theorem seqB_transpose (hA : Aᵀ = A) : (seqB A B₁ B₂)ᵀ = seqB A B₂ᵀ B₁ᵀ := by
-  simp only [seqB, transpose_sub, transpose_add, transpose_mul, hA, Matrix.mul_assoc]; abel
-
-@[simp] theorem powB_zero : powB A B 0 = 0 := rfl
-theorem powB_succ (k : ℕ) : powB A B (k + 1) = seqB A (powB A B k) B := rfl
-@[simp] theorem powB_one : powB A B 1 = B := by simp [powB]
-
-theorem powB_succ' (k : ℕ) : powB A B (k + 1) = seqB A B (powB A B k) := by
-  induction k with
-  | zero => simp [powB]
-  | succ k ih => rw [powB_succ, ih, seqB_assoc, ← powB_succ, ih]
-
-theorem one_sub_powB_mul (k : ℕ) : 1 - powB A B k * A = (1 - B * A) ^ k := by
-  induction k with
-  | zero => simp
-  | succ k ih => rw [powB_succ, one_sub_seqB_mul, ih, pow_succ']
-
-theorem powB_transpose (hA : Aᵀ = A) (k : ℕ) : (powB A B k)ᵀ = powB A Bᵀ k := by
-  induction k with
-  | zero => simp
-  | succ k ih => rw [powB_succ, seqB_transpose _ _ _ hA, ih, ← powB_succ']
-
-/-- `k` steps from `x₀ = 0` -/
-theorem iterate_step_zero (f : ι → 𝕜) (k : ℕ) : (step A B f)^[k] 0 = powB A B k *ᵥ f := by
-  induction k with
-  | zero => simp
-  | succ k ih =>
-    rw [Function.iterate_succ_apply', ih, powB_succ]
-    have : powB A B k *ᵥ f = step A (powB A B k) f 0 := by simp [step]
-    rw [this, step_step]; simp [step]
-
-/-- scaling: `A ↦ c A`, `Bᵢ ↦ c⁻¹ Bᵢ` scales the composed preconditioner by `c⁻¹` -/
-theorem seqB_smul {c : 𝕜} (hc : c ≠ 0) : seqB (c • A) (c⁻¹ • B₁) (c⁻¹ • B₂) = c⁻¹ • seqB A B₁ B₂ := by
-  simp only [seqB, Matrix.smul_mul, Matrix.mul_smul, smul_smul, smul_sub, smul_add]
-  congr 2
-  field_simp
-
-theorem powB_smul {c : 𝕜} (hc : c ≠ 0) (k : ℕ) : powB (c • A) (c⁻¹ • B) k = c⁻¹ • powB A B k := by
-  induction k with
-  | zero => simp
-  | succ k ih => rw [powB_succ, ih, seqB_smul _ _ _ hc, ← powB_succ]
-
-end seq
 
 end Amgcl.Energy
